@@ -1063,3 +1063,8 @@ mod tests {
         }
     }
 }
+
+#[cfg(kani)]
+mod verif_kani {
+    include!(concat!(env!("REPE_VERIF_KANI"), "/stream.rs"));
+}
